@@ -217,6 +217,9 @@ def run(ctx):
         jobs.append({"seed": ctx.seed + 1, "fits": [(1, {"max_dt_sec": [0.05]}), (3, {"max_dt_sec": [0.05, 0.2]})]})
         jobs.append({"seed": ctx.seed + 2, "outliers": True, "fits": [(8, {"innovation_filtering": [2.0, None]})]})
         jobs.append({"seed": ctx.seed + 3, "outliers": True, "fits": [(7, {"innovation_filtering": [1.0, None, 6.0]})]})
+        # grids that PIN a hyper-parameter to one option (a one-point grid is still a grid: the selection must come from it)
+        jobs.append({"seed": ctx.seed + 4, "fits": [(5, {"innovation_filtering": [None], "common_subexpression_elimination": [False]})]})
+        jobs.append({"seed": ctx.seed + 5, "fits": [(6, {"innovation_filtering": [None, 3.0], "max_dt_sec": [0.25]})]})
     else:
         grids = [{"innovation_filtering": [None, 4.0, 7.0]}, {"innovation_filtering": [2.0, None]}, {"innovation_filtering": [1.0, 5.0, None]}, {"max_dt_sec": [0.05, 0.2]}, {"common_subexpression_elimination": [True, False]},
                  {"innovation_filtering": [2.0, 6.0], "max_dt_sec": [0.1, 0.3]}, {"innovation_filtering": [None], "common_subexpression_elimination": [False]}]
